@@ -220,6 +220,25 @@ def rule_delivery(report, prog):
     ui = [c for c in ast.walk(s.node) if isinstance(c, ast.Call) and norm(c.func) == 'pdu.UnnumberedInformation']
     report.check(len(ui) == 1 and [norm(a) for a in ui[0].args] == ['dest', 'self.addr'], 'C17-R5',
                  key(s.qname, 'UI PDU addressed (dest, own address)'), s.loc(), 'UI PDU addressing changed')
+    # the destination the application names reaches the UI PDU untouched: every function of the sendto chain passes its own
+    # destination parameter on, in the callee's destination position, and never rebinds it
+    chain = [('nfc.llcp.socket.Socket.sendto', 'addr', 'self.llc.sendto', 2),
+             (LLC + '.sendto', 'dest', 'socket.sendto', 1),
+             ('nfc.llcp.tco.LogicalDataLink.sendto', 'dest', 'pdu.UnnumberedInformation', 0)]
+    for q, param, callee, pos in chain:
+        fn = prog.func(q)
+        if param not in fn.params:
+            raise AnalysisError('C17-R5: %s has no parameter %s' % (q, param))
+        rebound = [x for x in ast.walk(fn.node) if isinstance(x, ast.Name) and x.id == param and isinstance(x.ctx, (ast.Store, ast.Del))]
+        cs = [c for c in ast.walk(fn.node) if isinstance(c, ast.Call) and norm(c.func) == callee]
+        okk = not rebound and len(cs) == 1 and len(cs[0].args) > pos and norm(cs[0].args[pos]) == param
+        report.check(okk, 'C17-R5', key(q, 'the caller\'s destination address is passed on unchanged'), fn.loc(rebound[0] if rebound else None),
+                     '%s %s: a datagram can be addressed to a service access point other than the one the application named'
+                     % (q, ('rebinds `%s`' % param) if rebound else ('does not pass `%s` to %s' % (param, callee))))
+    snd = prog.func(LLC + '.send')
+    cs = [c for c in ast.walk(snd.node) if isinstance(c, ast.Call) and norm(c.func) == 'self.sendto']
+    report.check(len(cs) == 1 and [norm(a) for a in cs[0].args] == ['socket', 'message', 'socket.peer', 'flags'], 'C17-R5',
+                 key(snd.qname, 'send() addresses the connected peer'), snd.loc(), 'send() no longer sends to socket.peer')
     # service discovery answers come from the local name table; results are stored under the requested name
     e = prog.func(SD + '.enqueue')
     report.check(bool(find(e.node, 'sap = self.llc.snl[name]')) and bool(find(e.node, 'self.sdres.append((tid, sap))')),
@@ -303,6 +322,11 @@ def run(report, prog, tier):
 L = 'nfc.llcp.llc'
 T = 'nfc.llcp.tco'
 MUTANTS = [
+    ('sendto-dest-from-peer', L, """        if isinstance(socket, tco.LogicalDataLink):
+            if dest is None:""", """        if isinstance(socket, tco.LogicalDataLink):
+            dest = socket.peer or dest
+            if dest is None:""", 'C17-R5'),
+    ('socket-sendto-wrong-position', 'nfc.llcp.socket', "return self.llc.sendto(self._tco, data, addr, flags)", "return self.llc.sendto(self._tco, data, flags, addr)", 'C17-R5'),
     ('bind-addr-no-free-test', L, """                if self.sap[addr] is None:
                     socket.bind(addr)
                     self.sap[addr] = ServiceAccessPoint(addr, self)
